@@ -1,0 +1,107 @@
+// Verification hooks, compiled only with `--cfg vm_memory_verif`.
+// They expose (a) the primitive accesses issued by `copy_slice_impl`, and (b) an `AtomicU64`
+// stand-in that logs every atomic step of `AtomicBitmap` and calls a scheduler yield point
+// before it.  With the cfg off this file is not part of the crate.
+
+#![allow(missing_docs)]
+
+use std::cell::RefCell;
+use std::sync::atomic::Ordering;
+
+/// one primitive access of `copy_slice_impl`: `width` bytes (0 = one bulk `copy_nonoverlapping`
+/// of `total` bytes) from `src` to `dst`
+#[derive(Clone, Copy, Debug, PartialEq, Eq)]
+pub struct CopyAccess {
+    pub width: usize,
+    pub src: usize,
+    pub dst: usize,
+    pub total: usize,
+}
+
+/// one atomic step on a bitmap word
+#[derive(Clone, Copy, Debug, PartialEq, Eq)]
+pub struct AtomicStep {
+    /// 0 = load, 1 = store, 2 = fetch_or, 3 = fetch_and
+    pub kind: u8,
+    pub addr: usize,
+    pub operand: u64,
+    pub returned: u64,
+}
+
+thread_local! {
+    static COPY_LOG: RefCell<Option<Vec<CopyAccess>>> = const { RefCell::new(None) };
+    static ATOMIC_LOG: RefCell<Option<Vec<AtomicStep>>> = const { RefCell::new(None) };
+    static YIELD: RefCell<Option<Box<dyn Fn()>>> = const { RefCell::new(None) };
+}
+
+pub fn copy_log_start() {
+    COPY_LOG.with(|l| *l.borrow_mut() = Some(Vec::new()));
+}
+pub fn copy_log_take() -> Vec<CopyAccess> {
+    COPY_LOG.with(|l| l.borrow_mut().take().unwrap_or_default())
+}
+pub fn copy_access(width: usize, src: usize, dst: usize, total: usize) {
+    COPY_LOG.with(|l| {
+        if let Some(v) = l.borrow_mut().as_mut() {
+            v.push(CopyAccess { width, src, dst, total });
+        }
+    });
+}
+
+pub fn atomic_log_start() {
+    ATOMIC_LOG.with(|l| *l.borrow_mut() = Some(Vec::new()));
+}
+pub fn atomic_log_take() -> Vec<AtomicStep> {
+    ATOMIC_LOG.with(|l| l.borrow_mut().take().unwrap_or_default())
+}
+/// install (or clear) the per-thread callback invoked before every atomic step
+pub fn set_yield(f: Option<Box<dyn Fn()>>) {
+    YIELD.with(|y| *y.borrow_mut() = f);
+}
+fn yield_point() {
+    YIELD.with(|y| {
+        if let Some(f) = y.borrow().as_ref() {
+            f()
+        }
+    });
+}
+fn log_step(kind: u8, addr: usize, operand: u64, returned: u64) {
+    ATOMIC_LOG.with(|l| {
+        if let Some(v) = l.borrow_mut().as_mut() {
+            v.push(AtomicStep { kind, addr, operand, returned });
+        }
+    });
+}
+
+/// `std::sync::atomic::AtomicU64` with a yield point before, and a log entry after, every operation
+#[derive(Debug, Default)]
+pub struct AtomicU64(std::sync::atomic::AtomicU64);
+
+impl AtomicU64 {
+    pub fn new(v: u64) -> Self {
+        AtomicU64(std::sync::atomic::AtomicU64::new(v))
+    }
+    pub fn load(&self, order: Ordering) -> u64 {
+        yield_point();
+        let r = self.0.load(order);
+        log_step(0, self as *const _ as usize, 0, r);
+        r
+    }
+    pub fn store(&self, v: u64, order: Ordering) {
+        yield_point();
+        self.0.store(v, order);
+        log_step(1, self as *const _ as usize, v, 0);
+    }
+    pub fn fetch_or(&self, v: u64, order: Ordering) -> u64 {
+        yield_point();
+        let r = self.0.fetch_or(v, order);
+        log_step(2, self as *const _ as usize, v, r);
+        r
+    }
+    pub fn fetch_and(&self, v: u64, order: Ordering) -> u64 {
+        yield_point();
+        let r = self.0.fetch_and(v, order);
+        log_step(3, self as *const _ as usize, v, r);
+        r
+    }
+}
